@@ -87,7 +87,7 @@ m = {
    "guard": "verif",
    "enable": "go test -c -tags verif -overlay <generated by tools/overlaygen.py> (the overlay swaps sync, sync/atomic, math/rand/v2 imports of leader/*.go for shims; /repo is not modified)",
    "baseline_off_cmd": "cd /repo && GOFLAGS=-mod=mod go test -vet=off -count=1 -timeout 25m ./...",
-   "source_commits": [],
+   "source_commits": ["7db0c84"],
    "add_only": True,
  },
  "engines": [{"name": ENGINE, "path": "/verif/harness", "serves_properties": sorted(CHECKS), "kind_free_text": "hand-written stateless model checker: deviation-bounded DFS over named environment choices, real code executed in testing/synctest bubbles (virtual time, quiescence detection), gated reference KV store, worker subprocess pool"}],
